@@ -266,6 +266,53 @@ def transition(task):
         s.cleanup()
 
 
+def linear_task(task):
+    """One long history in one repository for a large max_retained_runs (None: the default, 10): the
+    slot counter wraps from a multi-digit id back to 1. After every run the same observations as in
+    the BFS are judged."""
+    maxr, pattern, length = task
+    eff = 10 if maxr is None else maxr
+    s = sc.Scratch("c12lin")
+    try:
+        r = make_repo(s, maxr)
+        if r.mr("checkpoint", "update").code != 0:
+            raise common.EngineError("checkpoint update failed")
+        history, ran, viol = [], {}, []
+        obs = set()
+        for i in range(length):
+            ri = pattern[i % len(pattern)]
+            res = r.mr("run", *RUNS[ri]["args"], env=r.trace_env())
+            doc = res.json()
+            history.append(ri)
+            if doc is None or res.code not in (0, 1):
+                viol.append(("run-did-not-complete", "run %d (%s) of a long history: exit %s %s" % (i + 1, RUNS[ri]["name"], res.code, res.err[:300])))
+                break
+            ran[i] = executed_pairs(doc)
+            obs.add(json.dumps(canon_result(doc), sort_keys=True))
+            v = observe(r, eff, history, doc, ran)
+            if v:
+                viol += [(sig, "after run %d of the history: %s" % (i + 1, d)) for sig, d in v]
+                break
+        case = {"linear": [maxr, list(pattern), length]}
+        return {"transitions": len(history), "obs": sorted(obs),
+                "violations": [{"sig": sig, "detail": d, "rank": 100000 + len(history), "case": case} for sig, d in viol]}
+    except common.EngineError as e:
+        return {"engine_error": str(e)}
+    except Exception:
+        return {"engine_error": traceback.format_exc()[-1500:]}
+    finally:
+        s.cleanup()
+
+
+def linear_cases(tier):
+    pats = [(0, 1, 2, 3), (2,), (0,)]
+    out = [(m, p, 2 * (m or 10) + 3) for m in (10, None, 11) for p in pats]
+    out += [(9, pats[0], 21)]
+    if tier != "quick":
+        out += [(100, pats[0], 203), (100, pats[1], 103), (12, pats[0], 27), (20, pats[0], 43), (99, pats[0], 102), (101, pats[0], 104)]
+    return out
+
+
 def _wrap(viol, maxr, history, out_dir=None):
     return [{"sig": sig, "detail": d, "rank": len(history) * 10 + maxr,
              "case": {"max_retained_runs": maxr, "out_dir": out_dir, "history": [RUNS[h]["name"] for h in history]}} for sig, d in viol]
@@ -319,13 +366,24 @@ def run(prop, tier):
                 agg["fixpoint"][str(maxr) + ("+aborting run (depth-bounded)" if with_abort else "" if not odir else "+foreign cwd" if odir.startswith("@") else "+custom out_dir")] = {"states": len(seen), "depth": depth, "converged": (not frontier) or with_abort}
                 if len(seen) > 2:
                     agg["samples"].append({"max_retained_runs": maxr, "out_dir": odir, "history": [RUNS[h]["name"] for h in list(seen.values())[-1]]})
+        lin = linear_cases(tier)
+        lres = common.pmap(linear_task, lin)
+        errs = [r["engine_error"] for r in lres if "engine_error" in r]
+        if errs:
+            raise common.EngineError("; ".join(errs[:2]))
+        for r in lres:
+            agg["transitions"] += r["transitions"]
+            agg["traces_validated_against_impl"] += r["transitions"]
+            agg["violations"].extend(r["violations"])
+            obs.update(r["obs"])
+        agg["long_histories"] = [{"max_retained_runs": m if m is not None else "default", "pattern": [RUNS[i]["name"] for i in p], "runs": n} for (m, p, n) in lin]
     finally:
         store_s.cleanup()
     agg["distinct_result_documents"] = len(obs)
     agg["evaluations"] = agg["transitions"]
     agg["distinct_nontrivial"] = agg["states"]
     agg["exhaustive"] = all(f["converged"] for f in agg["fixpoint"].values())
-    agg["rule"] = "BFS to fixpoint over run histories for max_retained_runs in %s (plus, for max 2, a depth-bounded search whose alphabet also contains a run that aborts with a fatal error during execution); alphabet of completing runs: %s; state = actual disk content of <out>/tracking/run.json and <out>/run/** (decoded, timestamps and run times dropped); after every transition: result show == the document that run printed, log show == exactly that run's logs, log show --id <slot> for each retained run, number of run directories <= max" % (maxes, [r["name"] for r in RUNS])
+    agg["rule"] = "BFS to fixpoint over run histories for max_retained_runs in %s (plus, for max 2, a depth-bounded search whose alphabet also contains a run that aborts with a fatal error during execution); alphabet of completing runs: %s; state = actual disk content of <out>/tracking/run.json and <out>/run/** (decoded, timestamps and run times dropped); plus %d single long histories (not a fixpoint search) for max_retained_runs in 9..12/20/99..101/default that cross the wrap of the slot counter from a multi-digit id to 1 at least once; after every transition: result show == the document that run printed, log show == exactly that run's logs, log show --id <slot> for each retained run, number of run directories <= max" % (maxes, [r["name"] for r in RUNS], len(lin))
     by = {}
     for v in agg["violations"]:
         by[v["sig"]] = by.get(v["sig"], 0) + 1
@@ -339,6 +397,19 @@ def run(prop, tier):
 def replay(prop, path):
     body = json.load(open(path))
     case = body["case"]
+    if "linear" in case:
+        m, p, n = case["linear"]
+        r = linear_task((m, tuple(p), n))
+        if "engine_error" in r:
+            print("ENGINE:", r["engine_error"])
+            return 2
+        for v in r["violations"]:
+            print("REPLAY property=%s still violates: [%s] %s" % (prop, v["sig"], v["detail"][:300]))
+        if r["violations"]:
+            print("VIOLATION property=%s replay=%s" % (prop, path))
+            return 1
+        print("REPLAY property=%s: case passes on the current tree" % prop)
+        return 0
     maxr = case["max_retained_runs"]
     if case.get("out_dir"):
         maxr = (maxr, case["out_dir"])
